@@ -522,6 +522,11 @@ def nbr_record(rng, names, depth=1):
         if k == 11: return N(rand_name(rng))
         if k == 12: return rng.choice([IV([rng.randrange(0, 13)]), BV([True]), FV([fbits(1.5)])])
         return rand_atom(rng, names)
+    if depth > 0 and rng.random() < 0.15:
+        # few top-level entries, many values of one type inside a sub-list: the n-th value is counted depth-first, not by top-level entry
+        k = rng.randrange(3)
+        inner = L(*[[Z(10 + i), B(i % 2 == 0), F(fbits(0.5 * i))][k] for i in range(rng.randrange(2, 6))])
+        return rng.choice([L(inner), L(inner, field()), L(field(), inner), L(L(inner))])
     return L(*[field() for _ in range(rng.randrange(0, 8))])
 
 
